@@ -31,7 +31,7 @@ class C12Check(Check):
 
 reg(C12Check(
     "C12", "c12",
-    coq_targets=["Total/C12Check.vo", "Total/TotalProofs.vo", "Props/C12.vo"],
+    coq_targets=["Total/StreamModel.vo", "Total/C12Check.vo", "Total/TotalProofs.vo", "Props/C12.vo"],
     assumptions=[
         "messages are what protobuf decoding can produce (no nil entries in repeated fields, no nil inner message of a set oneof arm)",
         "the Subscribe handler is given a context carrying a gRPC peer (real gRPC always attaches one)",
@@ -39,7 +39,7 @@ reg(C12Check(
         "single goroutine per entry point (panics inside goroutines spawned by the code under test after a request was accepted are outside what the harness can observe)",
         "Update.duplicates is 0 in the generated messages (proto.Equal is modelled structurally, floats with == and NaN = NaN)",
     ],
-    modelled=["cache/cache.go: Cache.GnmiUpdate, Target.GnmiUpdate, gnmiUpdate, gnmiRemove, joinPrefixAndPath, generateMetaUpdates (panic sites only); value/value.go Equal, ToScalar via ValueModel; path/path.go via PathModel; ctree via CTreeModel; subscribe/subscribe.go: head of Subscribe, addSubscription, processSubscription (outcome class); client/gnmi/client.go: defaultRecv, noti; client/client.go: BaseClient.run; client/cache.go: defaultHandler; cli/cli.go: sendQueryAndDisplay, display*Results, displayWalk, pathmap.add (text of displayed values not modelled); manager/manager.go: handleGNMIUpdate"],
+    modelled=["cache/cache.go: Cache.GnmiUpdate, Target.GnmiUpdate, gnmiUpdate, gnmiRemove, joinPrefixAndPath, generateMetaUpdates (panic sites only); value/value.go Equal, ToScalar via ValueModel; path/path.go via PathModel; ctree via CTreeModel; subscribe/subscribe.go: head of Subscribe, addSubscription, processSubscription (outcome class); client/gnmi/client.go: defaultRecv, noti; client/client.go: BaseClient.run; client/cache.go: defaultHandler; cli/cli.go: sendQueryAndDisplay, display*Results, displayWalk, pathmap.add (text of displayed values not modelled); manager/manager.go: handleGNMIUpdate; subscribe/subscribe.go sender side: MakeSubscribeResponse, isTargetDelete (per queued notification; the sender goroutine itself is not driven)"],
 ),
     level_text="Theorems in coq/Props/C12.v state totality (no Panic outcome) of guard-level Gallina models of the four entry points for all states and all wire-realisable messages, with every crash of the current code attributed to a listed defect class (refuted on a witness) and shown absent from the patched model, that a rejected notification (single error, or a multi notification with every update rejected) leaves the stored tree unchanged, that the periodic metadata refresh never panics in any state reachable through patched ingest, and soundness of the executable checker K_P; the models are tied to the Go code by a correspondence run (grids over the optional fields of a message, every ordered pair of look-alike values written to one leaf, seeded random sequences, byte-level mutations of valid encodings; every message through a protobuf marshal/unmarshal round trip; every call under recover) evaluated inside Coq, which also applies 'no panic, dump unchanged across a rejected message' to the implementation's own observations.",
     level_note="Trusted: Coq kernel + vm_compute, the hand-written models (validated only on the explored cases), the Go harness projection. Coverage-guided byte fuzzing is not part of the technique; the byte-mutation stream is seeded and blind.")
